@@ -297,8 +297,13 @@ def _main_check(ctx: Ctx) -> None:
               message=f"{[short(s) for s in rem]}", file=fi.file, node=track_loop)
     ctx.check(len(fresh) >= 1, "PLACEHOLDER", f"{FN}: an exhausted track continues with an empty sequence", function=FN,
               construct="exhausted track is not replaced by an empty placeholder", message="", file=fi.file, node=track_loop)
+    # the flag that decides about another round: named in the loop test, or in an `if <flag>: break` at the top level of the loop body
+    flag_names = {n.id for n in ast.walk(loop.test) if isinstance(n, ast.Name)}
+    for b_ in loop.body:
+        if isinstance(b_, ast.If) and any(isinstance(x, ast.Break) for x in b_.body):
+            flag_names |= {n.id for n in ast.walk(b_.test) if isinstance(n, ast.Name)}
     sync = [s for s in ast.walk(loop) if isinstance(s, ast.Assign) and isinstance(s.value, ast.Constant) and isinstance(s.value.value, bool)
-            and isinstance(s.targets[0], ast.Name) and s.targets[0].id in {n.id for n in ast.walk(loop.test) if isinstance(n, ast.Name)}]
+            and isinstance(s.targets[0], ast.Name) and s.targets[0].id in flag_names]
     setf = [s for s in sync if s.value.value is False]
     def _two_or_more(t):
         """does the test hold exactly when a list has two or more elements?  (`len(x) > 1`, `len(x) >= 2`, `1 < len(x)` ...)"""
@@ -310,8 +315,11 @@ def _main_check(ctx: Ctx) -> None:
                 return (op is ast.Gt and r.value == 1) or (op is ast.GtE and r.value == 2) or (op is ast.NotEq and False)
         return False
     ok = bool(setf) and all(any(isinstance(a, ast.If) and _two_or_more(a.test) and any(s is x for y in a.body for x in ast.walk(y)) for a in ancestors(s)) for s in setf)
-    ctx.check(ok, "PLACEHOLDER", f"{FN}: another round runs iff some track still has a remainder", function=FN,
-              construct="loop continuation flag is not tied to `a remainder exists`", message="", file=fi.file, node=loop)
+    if not flag_names or not sync:
+        ctx.undetermined("PLACEHOLDER", f"{FN}: another round runs iff some track still has a remainder", "no boolean round flag recognised: not judged")
+    else:
+        ctx.check(ok, "PLACEHOLDER", f"{FN}: another round runs iff some track still has a remainder", function=FN,
+                  construct="loop continuation flag is not tied to `a remainder exists`", message="", file=fi.file, node=loop)
 
     # --- LOOPCTL: the flag that ends the rounds
     flagn = None
